@@ -62,10 +62,13 @@ impl Property for C17 {
             if let Some((base, ft)) = &family {
                 // split at a char boundary
                 let cuts: Vec<usize> = (0..=base.len()).filter(|i| base.is_char_boundary(*i)).collect();
-                let c = cuts[(gi + ctx.ch.index(cuts.len())) % cuts.len()];
+                // half of the families vary the split (same threshold); the other half keep ONE
+                // (measurement, epoch) and vary only the threshold from group to group
+                let vary_threshold = base.len() % 2 == 1;
+                let c = if vary_threshold { cuts[cuts.len() / 2] } else { cuts[(gi + ctx.ch.index(cuts.len())) % cuts.len()] };
                 m = base.as_bytes()[..c].to_vec();
                 epoch = base[c..].to_string();
-                t = *ft;
+                t = if vary_threshold { 1 + ((*ft + gi as u32) % 4) } else { *ft };
                 ctx.stats.probe("confusable_measurement_epoch_groups");
             }
             if groups.iter().any(|g| g.m == m && g.t == t && g.epoch == epoch) {
